@@ -1423,6 +1423,12 @@ class SuccessionDiagram:
             node["expanded"] = True
             return True
 
+        # Attractor data computed while the node had no successors
+        # is no longer valid once the skip edges are added.
+        node["attractor_seeds"] = None
+        node["attractor_candidates"] = None
+        node["attractor_sets"] = None
+
         for m_trap in minimal_traps:
             m_id = self._ensure_node(node_id, m_trap)
             # Also expand the minimal trap space, since we know
@@ -1480,6 +1486,11 @@ class SuccessionDiagram:
 
             node["skipped"] = True
             node["expanded"] = True
+            # Attractor data computed while the node had no successors
+            # is no longer valid.
+            node["attractor_seeds"] = None
+            node["attractor_candidates"] = None
+            node["attractor_sets"] = None
             skipped_nodes += 1
 
             # At this point, all minimal traps must be expanded,
